@@ -119,14 +119,11 @@ def extractVaryingRegion (c : Choice) : List Choice :=
   | [] => [c]
   | [_] => [c]
   | reference :: rest =>
-    -- the Python code starts with start = -1, end = len(reference) when no column varies
-    let (st, en, none?) := match varyingColumns reference rest with
-      | some (a, b) => (a, b, false)
-      | none => (0, reference.length, true)
-    if none? then
-      -- unreachable for >= 2 distinct variants of equal length (the variants are a Python set)
-      [c]
-    else
+    -- the Python code starts with start = -1, end = len(reference) when no column varies: unreachable for >= 2
+    -- distinct variants of equal length (the variants are a Python set); the choice is then left as it is
+    match varyingColumns reference rest with
+    | none => [c]
+    | some (st, en) =>
       -- the variants are pairwise distinct (Python set), so the central slices are distinct and the
       -- flanks are single values: no duplicate removal is needed
       (if st > 0 then [{ start := c.start, stop := c.start + st, variants := [reference.take st] }] else []) ++
